@@ -49,6 +49,9 @@ func runC06(c *ctx) {
 		"a.(($substringBefore)(\"z\"))", "a.([$substringBefore][0](\"z\"))", "a.((n > 0 ? $substringBefore : $substringAfter)(\"z\"))", "b.c.(($pad)(9, \"-\"))", "a.(($length)())",
 		"($f := $substringBefore; a.$f(\"z\"))", "a.($substringBefore ~> $uppercase)(\"z\")",
 		"$map([1,2,3], $string)", "$filter(items, function($v){$v.id > n}).id", "$each(b, function($v, $k){$k & $v})",
+		// resource use that adds up across goroutines: bounded recursion (32 goroutines x depth 60 is far more nesting than any
+		// single evaluation has)
+		"($f := function($d){$d <= 0 ? n : 1 + $f($d - 1)}; $f(60))", "($h := function($d){$d <= 0 ? a : $h($d - 1).$substringBefore(\"z\")}; $h(40))",
 	}
 	g := &pgen{r: r, noRand: true}
 	inputFor := func(k int) interface{} {
